@@ -490,3 +490,51 @@ package ss2022
 //@   loop 0 modifies writeBuf[0:cap(writeBuf)], c.readCipher.nonce[*], w.writeCipher.nonce[*]
 //@   loop 0 invariant sscReadWF(c) && sscWriteWF(w)
 //@   callsite read: c.readStart == len(c.readBuf)
+
+// Request and response headers (C01: what the server parses is what the client put; C02: a response is only
+// accepted when it carries the client's own request salt).
+//@ func PutTCPRequestFixedLengthHeader
+//@   requires len(b) >= 11 && 0 <= length && length <= 65535
+//@   modifies b[0:11]
+//@   ensures b[0] == 0 && int64(be64(b[1:])) == now.Unix() && int(be16(b[9:])) == length
+
+//@ func PutTCPResponseHeader
+//@   requires len(b) >= 1 + 8 + len(requestSalt) + 2 && len(requestSalt) <= 32 && 0 <= length && length <= 65535 && !samearray(b, requestSalt)
+//@   modifies b[0:11 + len(requestSalt)]
+//@   ensures b[0] == 1 && int64(be64(b[1:])) == now.Unix() && int(be16(b[9 + len(requestSalt):])) == length
+//@   ensures forall i int :: 0 <= i && i < len(requestSalt) ==> b[9 + i] == requestSalt[i]
+
+// The target address travels in the SOCKS5 format (see socks5), followed by the padding length, the padding
+// and the initial payload, which is the rest of the chunk.
+//@ func ParseTCPRequestVariableLengthHeader
+//@   modifies nothing
+//@   ensures isnil(err) && targetAddr.IsDomain() ==> socks5.domainEnc(b, targetAddr.Domain(), targetAddr.Port())
+//@   ensures isnil(err) && targetAddr.IsIP() ==> (b[0] == 1 ==> socks5.ip4Enc(b, targetAddr.IP(), targetAddr.Port())) && (b[0] == 4 ==> socks5.ip6Enc(b, targetAddr.IP(), targetAddr.Port()))
+//@   ensures isnil(err) ==> samearray(payload, b) && sliceoff(payload) + len(payload) == sliceoff(b) + len(b)
+
+// (For a domain target the address bytes are written by socks5.WriteAddrFromConnAddr, proved there; that the
+// later padding/payload writes leave them alone is only proved for IP targets within the quick budget.)
+//@ func PutTCPRequestVariableLengthHeader
+//@   requires conn.AddrWF(targetAddr) && len(b) >= socks5.LengthOfAddrFromConnAddr(targetAddr) + 2 + len(payload) && len(b) - socks5.LengthOfAddrFromConnAddr(targetAddr) - 2 - len(payload) <= 65535 && !samearray(b, payload)
+//@   modifies b[0:len(b)]
+//@   ensures targetAddr.IsIP() && (targetAddr.IP().Is4() || targetAddr.IP().Is4In6()) ==> socks5.ip4Enc(b, targetAddr.IP(), targetAddr.Port())
+//@   ensures targetAddr.IsIP() && !(targetAddr.IP().Is4() || targetAddr.IP().Is4In6()) ==> socks5.ip6Enc(b, targetAddr.IP(), targetAddr.Port())
+
+// A client only accepts a response whose header was opened by the AEAD and names the client's own request
+// salt (C02); the payload length it returns is the one in that header.
+//@ func (*ShadowStreamClientConn).initRead
+//@   requires !isnil(c) && !isnil(c.cipherConfig) && (len(c.cipherConfig.PSK) == 16 || len(c.cipherConfig.PSK) == 32) && len(c.unsafeResponseStreamPrefix) <= 65536
+//@   requires c.requestSaltLen == len(c.cipherConfig.PSK) && (isnil(c.ShadowStreamConn.readBuf) || cap(c.ShadowStreamConn.readBuf) >= 65535 + 16)
+//@   requires c.readOnceOrFull == readOnceExpectFull || c.readOnceOrFull == io.ReadFull
+//@   dyncall readOnceExpectFull, io.ReadFull
+//@   callsite ParseTCPResponseHeader: samearray(arg2, c.requestSalt[:]) && sliceoff(arg2) == sliceoff(c.requestSalt[:]) && len(arg2) == c.requestSaltLen
+//@   ensures isnil(err) ==> 1 <= payloadLen && payloadLen <= 65535 && !isnil(c.ShadowStreamConn.readCipher)
+
+// Writing: the data is cut into chunks of at most 65535 bytes, in order, each sealed as one length chunk and
+// one payload chunk; on success everything was written.
+//@ func (*ShadowStreamConn).Write
+//@   requires !isnil(c) && sscWriteWF(c) && !samearray(b, c.writeBuf) && !samearray(c.writeBuf, c.writeCipher.nonce[:]) && !samearray(b, c.writeCipher.nonce[:])
+//@   loop 0 modifies writeBuf[0:cap(writeBuf)], c.writeCipher.nonce[*]
+//@   loop 0 invariant sscWriteWF(c) && 0 <= n && n + len(b) == pre(len(b)) && samearray(b, pre(b)) && sliceoff(b) == pre(sliceoff(b)) + n
+//@   callsite write: samearray(arg2, b) && sliceoff(arg2) == sliceoff(b) && len(arg2) == min(len(b), 65535) && len(arg2) >= 1
+//@   ensures isnil(err) ==> n == old(len(b))
